@@ -121,6 +121,8 @@ def main():
             mp = os.path.join(V, 'seeded', sid, 'meta.json')
             meta = json.load(open(mp))
             meta['detected'] = {p: {'rc': x['rc'], 'keys': x['keys'], 'tier': a.tier} for p, x in r.items()}
+            meta['detected_with'] = {'verif_commit': sh(['git', '-C', V, 'rev-parse', '--short', 'HEAD']).stdout.strip(),
+                                     'repo_commit': sh(['git', '-C', '/repo', 'rev-parse', '--short', 'HEAD']).stdout.strip()}
             json.dump(meta, open(mp, 'w'), indent=1)
             print(('CAUGHT ' if caught else 'MISSED ') + sid + ' ' + json.dumps(r))
             sys.stdout.flush()
